@@ -12,7 +12,7 @@ TRUSTED_COMMON = [
     "Lean 4.33.0 kernel; axioms limited to propext, Classical.choice, Quot.sound (audited with #print axioms on every property theorem; no sorry/admit/native_decide/bv_decide/axiom in the import closure)",
     "translator /verif/tools/extract.py: the Lean text it emits for method.rs / condensed.rs / lib.rs tables / reset bodies / capi / headers / Go means what the source fragment means",
     "correspondence check (/verif/harness + lean driver): differential testing of the hand-modelled loops and bookkeeping against the real crate, bit patterns compared; bounded by the generated inputs reported here",
-    "theorems are over an abstract number type with the laws named in their hypotheses; that non-NaN IEEE floats in the safe magnitude range satisfy those laws is trusted (and exercised by the bit-exact correspondence run)",
+    "theorems are over an abstract number type with the laws named in their hypotheses; that non-NaN IEEE floats in the safe magnitude range satisfy those laws is trusted — and TESTED on every run: the executable kodama-laws (lean/Kodama/LawsSample.lean) evaluates every float-facing law-bundle field on grids of ~400 Float and Float32 values (special values, 1-3 ulp neighbours, magnitudes) and a law expected to hold that fails there is reported like a broken obligation (coverage.float_law_samples)",
     "modelled, not verified: slice::sort_by is a stable sort; find() without path compression returns what the compressing find returns",
 ]
 
@@ -174,6 +174,7 @@ def evidence(pid, tier, seed, pr, sessions, wall, violations, known_hits):
         'known_findings_hit': [k['id'] for k, _ in known_hits],
         'lake_build_s': pr.get('build_s'),
         'leanchecker': pr.get('leanchecker'),
+        'float_law_samples': pr.get('law_sample'),
     }
     return {
         'property_id': pid,
